@@ -31,6 +31,12 @@ RULE = ("(a) grammar-complete: every prefix x base unit for quantities; every (n
 ASSUMPTIONS = ["documented grammar: docs/users_guide/units_and_concentrations.rst + parse_* docstrings",
                "values whose base-unit ratio is below the internal rounding grain are 'rounded to internal precision'",
                "any exception type counts as 'rejected' for malformed strings"]
+def shard_config(shard, tier):
+    """two of eight shards run with storage units whose prefixes differ from each other and from the shipped ones (a
+    documented setting; what a string denotes does not depend on it)"""
+    return {5: {'moles_storage_unit': 'mmol'}, 6: {'volume_storage_unit': 'mL', 'moles_storage_unit': 'umol'}}.get(shard % 8)
+
+
 REQUIRED_CLASSES = {'quick': ['q:valid', 'c:ratio', 'c:ratiow', 'c:M', 'c:m', 'c:pct', 'family', 'api', 'malformed:q',
                               'malformed:c'],
                     'thorough': ['q:valid', 'c:ratio', 'c:ratiow', 'c:M', 'c:m', 'c:pct', 'family', 'api',
@@ -61,6 +67,9 @@ def check_quantity(col, pp, cfg, text, exact, fam, key):
     except Exception as e:  # noqa
         col.report(f"parse_quantity/valid-rejected/{fam}", {'text': text, 'exc': repr(e)[:100]}, case)
         return
+    again = [pp.Unit.parse_quantity(text) for _ in range(2)]
+    if any(r != (v, u) for r in again):
+        col.report('parse_quantity/result-changes-when-parsed-again', {'text': text, 'results': [[v, u]] + [list(r) for r in again]}, case)
     if u != fam:
         col.report(f"parse_quantity/wrong-unit/{fam}", {'text': text, 'got': u}, case)
     elif abs(v - float(exact)) > 1e-12 * abs(float(exact)):
@@ -77,6 +86,11 @@ def check_concentration(col, pp, cfg, text, exact, num, den, form, key):
     except Exception as e:  # noqa
         col.report(f"parse_concentration/valid-rejected/{form}", {'text': text, 'exc': repr(e)[:100]}, case)
         return None
+    again = [pp.Unit.parse_concentration(text) for _ in range(2)]
+    if any(r != (v, n, d) for r in again):
+        # the meaning of a string must not depend on what was parsed before
+        col.report(f"parse_concentration/result-changes-when-parsed-again/{form}",
+                   {'text': text, 'results': [[v, n, d]] + [list(r) for r in again]}, case)
     if (n, d) != (num, den):
         col.report(f"parse_concentration/wrong-units/{form}", {'text': text, 'got': [n, d], 'expected': [num, den]}, case)
     elif not close_parse(cfg, v, exact):
@@ -211,6 +225,23 @@ def check_api(col, pp, cfg, subs, scenario, a, b, extra):
                    {'a': a, 'b': b, 'a_outcome': ka, 'b_outcome': kb, 'exc': repr(oa if ka == 'exc' else ob)[:120]}, case)
     elif ka == 'ok' and not views_equal(pp, oa, ob, cfg.grain):
         col.report(f"api/{scenario}/spellings-give-different-objects", {'a': a, 'b': b}, case)
+    elif ka == 'ok' and scenario == 'content' and 'denotes' in extra:
+        # and what both spellings give is the amount the string denotes (v x SI factor of the prefix, in the base unit)
+        frac, fam = Fraction(extra['denotes'][0]), extra['denotes'][1]
+        sub = subs[extra['sub']]
+        want = float(frac) / sub.factor(fam)
+        got = world.ref.base_contents(oa).get(sub.name, 0.0)
+        if abs(got - want) > 2.02 * cfg.grain * cfg.mol_mult + 1e-9 * want:
+            col.report(f"api/content/amount-is-not-what-the-string-denotes/{fam}",
+                       {'a': a, 'got_mol': got, 'expected_mol': want}, case)
+    elif ka == 'ok' and scenario == 'transfer' and 'denotes' in extra:
+        # the aliquot that arrives measures what the string denotes (exact split and rounding are C02's business:
+        # the tolerance here is wide, a misread prefix is a factor of 10 at least)
+        frac, fam = Fraction(extra['denotes'][0]), extra['denotes'][1]
+        got = world.ref.size(world.ref.base_contents(oa), fam)
+        if abs(got - float(frac)) > 1e-6 * float(frac) + 8 * cfg.grain * max(cfg.mol_mult, cfg.vol_mult) * 60:
+            col.report(f"api/transfer/aliquot-is-not-what-the-string-denotes/{fam}",
+                       {'a': a, 'got': got, 'expected': float(frac), 'unit': fam}, case)
     col.nontrivial_key(f"api|{scenario}|{a.split(' ', 1)[1]}|{b.split(' ', 1)[1]}")
     col.sample({'scenario': scenario, 'a': a, 'b': b})
 
@@ -332,6 +363,8 @@ def mutate(draw, text, kind):
         return text.replace(' ', '', 1), m
     if m == 'double-space':
         return text.replace(' ', '  ', 1), m
+    if m == 'bad-prefix' and '%' in text:          # a prefix glued to the percent sign is not a documented form
+        return text.replace('%', draw(st.sampled_from(['m', 'µ', 'u', 'k', 'c', 'p', 'x'])) + '%', 1), m
     if m == 'bad-prefix':
         v, rest = text.split(' ', 1)
         return f"{v} {draw(st.sampled_from(['p', 'G', 'T', 'f', 'h', 'x', 'mm', 'K']))}{rest.lstrip('numµcdkM') if kind == 'q' else rest}", m
@@ -431,10 +464,12 @@ def run(col):
                 extra['sub'] = data.draw(st.integers(0, 1))
                 frac = Fraction(m, 10 ** 6)
                 a, b = two_spellings(data.draw, frac, fam)
+                extra['denotes'] = [str(frac), fam]
             elif scenario == 'transfer':
                 fam = data.draw(st.sampled_from(['L', 'g', 'mol']))
                 frac = Fraction(m, 10 ** 8)
                 a, b = two_spellings(data.draw, frac, fam)
+                extra['denotes'] = [str(frac), fam]
             elif scenario in ('fill_to', 'solution-total'):
                 fam = data.draw(st.sampled_from(['L', 'g', 'mol']))
                 frac = Fraction(m + 100, 10 ** 5) if fam != 'mol' else Fraction(m + 100, 10 ** 4)
